@@ -23,6 +23,25 @@ PROPS = {
                        "the text, literal matches form a chain and are character-aligned in valid UTF-8, character = string pattern, a chain "
                        "of splits refines the previous stage. Tied to src/config/split.rs and Configuration::split by differential runs.",
     },
+    "C01": {
+        "level": "proof",
+        "rule": "RT ops (encode then decode with the same flag, both through the public API) on 120 (quick) / 1500 (thorough) generated "
+                "byte-complete definitions (byte-level BPE with all 256 bytes; character-mode BPE and Unigram with byte fallback and all 256 "
+                "byte tokens; identity normalization or the two whitespace-marker shapes; tiling splits; specials of all kinds) and the 15 "
+                "byte-complete shipped models (Tiktoken x3, GPT-2, GPT-NeoX, MPT, ModernBERT, Llama 2 x3 sources, Mistral x4, Nerdstash) x "
+                "texts with every scalar class, combining marks, NUL, ZWJ sequences, runs >192, special-token strings (marker-normalizing "
+                "tokenizers: texts without U+2581; special recognition on only for identity-normalizing tokenizers). Verdict: decoded bytes = "
+                "clean-up of the concatenated first-pass parts, and = the text itself when normalization is the identity.",
+        "trusted_base": CORE_TB + ["modelled, not verified: fancy-regex, unicode-normalization (NFC for NeoX/MPT/ModernBERT: the statement is "
+                                   "modulo NFC), oracle tables", "hashbrown maps as finite maps"],
+        "assumptions": ["ByteCompleteBpe: every byte is a token, merge ranks exist only for vocabulary entries, the decoder map inverts the "
+                        "encoder map, no suffix/prefix (true of the generated definitions by construction; for shipped models tied by the RT verdict)",
+                        "the end-to-end statement for character mode / Unigram-with-byte-fallback is covered by the C02/C06/C08 theorems and "
+                        "the RT verdict, not by a single Lean statement"],
+        "explanation": "Lean theorems: spm_marker_inverse and hf_marker_inverse (clean-up inverts the marker normalization on every text without "
+                       "the marker), no_fallback_reachable, bpe_roundtrip_parts (byte-level BPE: decode(encode(parts)) = the parts' texts for "
+                       "every vocabulary, fallback list and part list), second_pass_preserves_text (tiling splits lose nothing). Tied by RT runs.",
+    },
     "C02": {
         "level": "proof",
         "rule": "ENC2 ops through Kitoken::encode in both modes: 120 (quick) / 1500 (thorough) generated definitions of all four kinds with "
@@ -198,6 +217,24 @@ PROPS = {
                        "shadows specials, and prefix-mode spacing is characterized exactly; the model is tied to src/decoder.rs and "
                        "Kitoken::decode by differential runs.",
     },
+    "C18": {
+        "level": "proof",
+        "rule": "ENC18 ops (whole pipeline, both modes, overflow checks and debug assertions on, catch_unwind per case) on 120 (quick) / 1500 "
+                "(thorough) generated well-formed definitions (every split behaviour with multi-byte patterns, normalization/processing/decoding "
+                "steps with boundary parameters, end-of-word suffix x byte fallback, truncation with strides) and the 23 shipped models x texts "
+                "(corpora lines, special look-alikes, single scalar values, >192-unit runs); IMPLONLY ops: adversarial texts of 4 KiB and 32 KiB "
+                "(thorough: up to 256 KiB: long unbroken runs, whitespace runs, combining-mark runs, special look-alikes, random scalars) on "
+                "the implementation only. Decoding arbitrary ids is covered in depth by C08. Verdict: no PANIC/CRASH. Non-trivial: all.",
+        "trusted_base": CORE_TB + ["modelled, not verified: external regex / Unicode libraries (oracle tables); the regex engine's backtrack limit "
+                                   "(fancy-regex fails on ~1 MiB whitespace runs; the property's bound of 256 KiB is inside it) is an assumption",
+                                   "process death (abort, stack overflow, OOM) is observed only as a missing answer of the generator process"],
+        "assumptions": ["ExtSane: regex matches are ordered, in bounds and on character boundaries; external string results are valid UTF-8",
+                        "allocation failure and real stack depth are outside the model"],
+        "explanation": "Lean theorems: encode_never_panics (for every well-formed tokenizer, valid UTF-8 text and sane external libraries the whole "
+                       "pipeline returns tokens or an encode error, never a panic; every str slice is on a character boundary), composed from "
+                       "normalize_total, split_aligned, parts_total, encoder_never_panics, process_never_panics; decode_never_panics for any ids "
+                       "on any tokenizer. Tied to the code by differential runs of the whole pipeline with overflow checks on.",
+    },
 }
 
 
@@ -208,6 +245,8 @@ def nontrivial(prop, request, impl):
         return impl != "OK " + parts[2]
     if op in ("WP", "BPE", "UNI", "ENC", "ENC2", "ENC7", "ENC9", "ENC18", "REF9", "RT"):
         return impl not in ("OK -",)
+    if op == "IMPLONLY":
+        return True
     if op == "NORM":
         return parts[4] != "-"
     if op in ("NORMS",):
